@@ -407,7 +407,7 @@ add('beat.cemgil', BEAT.cemgil, b_events(), [('cemgil', 'unit'), ('cemgil_best',
 add('beat.goto', BEAT.goto, b_events(), [('goto', 'binary')], _sz([(0, 1), (1, 1), (2, 2), (3, 1)], [(0, 1), (1, 1), (2, 2), (3, 2), (4, 1)]),
     funcs=['beat.goto'], shift=shift_events, skip=('C06',))
 add('beat.continuity', BEAT.continuity, b_events(), [('CMLc', 'unit'), ('CMLt', 'unit'), ('AMLc', 'unit'), ('AMLt', 'unit')],
-    _sz([(0, 1), (1, 2), (2, 2)], [(0, 1), (1, 2), (2, 2), (3, 2), (2, 3)]), funcs=['beat.continuity'],
+    _sz([(0, 1), (1, 2), (2, 2)], [(0, 1), (1, 2), (2, 2), (1, 3), (3, 1)]), funcs=['beat.continuity'],
     nested=[(0, 1), (2, 3), (0, 2), (1, 3)], shift=shift_events, timeout_s=1800, skip=('C06',))
 
 # ---- onset
@@ -417,7 +417,7 @@ add('onset.f_measure', ONSET.f_measure, b_events('window'), [('F', 'unit'), ('P'
 
 # ---- segment boundaries
 SEGB_Q = [(1, 1), (2, 1), (2, 2), (0, 1), (1, 0)]
-SEGB_T = SEGB_Q + [(3, 2), (3, 3)]
+SEGB_T = SEGB_Q + [(3, 1), (1, 3)]
 add('segment.detection', SEG.detection, b_boundary(), [('P', 'unit'), ('R', 'unit'), ('F', 'unit')], _sz(SEGB_Q, SEGB_T),
     funcs=['segment.detection', 'segment.validate_boundary', 'util.intervals_to_boundaries', 'util.match_events'],
     perfect=[1, 1, 1], swap=[1, 0, 2], mono=[('window', [0, 1, 2])], exact_floats=False)
@@ -439,7 +439,7 @@ STRUCT = {
 
 # ---- melody frame measures
 MEL_Q = [(0,), (1,), (2,), (3,)]
-MEL_T = MEL_Q + [(4,), (5,)]
+MEL_T = MEL_Q + [(4,)]
 add('melody.voicing_measures', MEL.voicing_measures, b_melody(cents=False), [('recall', 'unit'), ('false_alarm', 'unit')], _sz(MEL_Q, MEL_T),
     funcs=['melody.voicing_measures', 'melody.voicing_recall', 'melody.voicing_false_alarm', 'melody.validate_voicing'], perfect=None)
 for _n, _f in (('raw_pitch_accuracy', MEL.raw_pitch_accuracy), ('raw_chroma_accuracy', MEL.raw_chroma_accuracy),
@@ -459,7 +459,7 @@ add('multipitch.metrics', MP.metrics, b_multipitch(1),
 
 # ---- transcription
 NOTE_Q = [(0, 1), (1, 0), (1, 1), (2, 2)]
-NOTE_T = NOTE_Q + [(2, 3), (3, 3)]
+NOTE_T = NOTE_Q + [(2, 3), (3, 2)]
 
 
 def shift_notes(inp, d):
